@@ -49,7 +49,7 @@ type chunkReader struct {
 	failOnce  bool // the failure is reported by one Read only; afterwards the reader answers io.EOF
 	failed    bool
 	scribble  bool // the reader uses all of p as scratch space (io.Reader allows it): bytes beyond n are overwritten
-	pieceSize int // >0: fixed piece size instead of cuts
+	pieceSize int  // >0: fixed piece size instead of cuts
 	reads     int
 }
 
@@ -146,6 +146,15 @@ var c09Dests = []struct {
 	{"int", reflect.TypeOf(int(0)), false},
 	{"int8", reflect.TypeOf(int8(0)), false},
 	{"uint", reflect.TypeOf(uint(0)), false},
+}
+
+// c09Poison: per slice destination, a document whose eight elements are all non-zero.
+var c09Poison = map[string]string{
+	"[]interface{}":            `[9,"p",[9],{"p":9},9,9,9,9]`,
+	"[]int":                    `[9,9,9,9,9,9,9,9]`,
+	"[]string":                 `["p","p","p","p","p","p","p","p"]`,
+	"[]struct{A int;B string}": `[{"a":9,"b":"p"},{"a":9,"b":"p"},{"a":9,"b":"p"},{"a":9,"b":"p"},{"a":9,"b":"p"},{"a":9,"b":"p"},{"a":9,"b":"p"},{"a":9,"b":"p"}]`,
+	"[]byte":                   `"cHBwcHBwcHBwcHBwcHBw"`,
 }
 
 // streamOutcome decodes up to three values from r and renders verdicts and values.
@@ -299,7 +308,18 @@ func c09Chunks(c *work.Ctx) {
 			if !c.BeginS(d.name + " <- " + doc) {
 				continue
 			}
+			// what an EARLIER decode of the same type left in the library's pooled scratch arrays must not show: before
+			// every decode of a slice destination, a document of eight non-zero elements is decoded into the same type
+			poison := func() {}
+			if pd, ok := c09Poison[d.name]; ok {
+				poison = func() {
+					x := reflect.New(d.t)
+					_ = json.Unmarshal([]byte(pd), x.Interface())
+				}
+			}
+			poison()
 			whole := streamOutcome(bytes.NewReader(b), d.t, d.num)
+			poison()
 			buf := bufferOutcome(b, d.t, d.num)
 			c.Outcome(whole)
 			// (1) the whole-input stream agrees with Unmarshal: one value then EOF exactly when Unmarshal succeeds
@@ -311,6 +331,7 @@ func c09Chunks(c *work.Ctx) {
 			}
 			// (2) every chunking gives what the whole-input reader gives
 			try := func(r *chunkReader, what string, cut int) {
+				poison()
 				got := streamOutcome(r, d.t, d.num)
 				c.Count("chunked_decodes", 1)
 				if got != whole {
